@@ -2,7 +2,7 @@
   Mrm/Model/Access.lean — the read accessors of `RunningOrder`, `Story` and `Item`
   (mostypes.py l.228-308, moselements.py l.103-323), with Python's exceptions made explicit.
 
-  Times are `Nat` ticks of 1/8 s (see Model/Timing.lean); durations are eighths of a second.
+  Times are `Nat` ticks of 1 µs (see Model/Timing.lean); durations are microseconds.
 -/
 import Mrm.Model.Timing
 
